@@ -102,7 +102,10 @@ Step(r) ==
     [] OTHER -> Keep /\ UNCHANGED <<mem, walE, rot, stage, pubE, liveS, idxSaved, lastLive, pendingIns>>
 
 WalVars(r) ==
-  CASE r.ev = "startup.loaded" -> curLog' = -1 /\ unlinked' = {}
+  \* at start-up the WAL writer re-opens the log with the highest id (append mode): that log is the open one
+  \* before the first append of the lifetime
+  CASE r.ev = "startup.loaded" -> /\ curLog' = IF DOMAIN walE = {} THEN -1 ELSE CHOOSE l \in DOMAIN walE : \A m \in DOMAIN walE : m <= l
+                                  /\ unlinked' = {}
     [] r.ev = "wal.appended" -> curLog' = r.log /\ UNCHANGED unlinked
     [] r.ev = "wal.rotated" -> curLog' = r.log /\ UNCHANGED unlinked
     [] r.ev = "walclean.deleted" -> UNCHANGED curLog /\ unlinked' = IF r.log = curLog THEN unlinked \cup {r.log} ELSE unlinked
